@@ -33,8 +33,13 @@ class DaqmxDataReader(BaseDataReader):
         scaler_data = defaultdict(dict)
 
         # Data for each raw data buffer is interleaved separately, so read one after another
+        in_final_chunk = (
+            self.final_chunk_lengths_override is not None and chunk_index == (self.num_chunks - 1))
         for (raw_buffer_index, buffer_shape) in enumerate(get_buffer_dimensions(data_objects)):
             (chunk_size, raw_data_width) = buffer_shape
+            if in_final_chunk:
+                # The final chunk of this segment is incomplete, don't read past the end of the segment
+                chunk_size = self._final_chunk_buffer_length(data_objects, raw_buffer_index, chunk_size)
             # Read all data into 1 byte unsigned ints first
             combined_data = read_interleaved_segment_bytes(file, raw_data_width, chunk_size)
 
@@ -66,6 +71,15 @@ class DaqmxDataReader(BaseDataReader):
         for path, data in scaler_data.items():
             combined_data[path] = RawChannelDataChunk.scaler_data(data)
         return RawDataChunk(combined_data)
+
+    def _final_chunk_buffer_length(self, data_objects, raw_buffer_index, full_length):
+        """ Number of rows of a raw buffer that are present in an incomplete final chunk
+        """
+        lengths = [
+            self.final_chunk_lengths_override[obj.path] for obj in data_objects
+            if obj.path in self.final_chunk_lengths_override and any(
+                scaler.raw_buffer_index == raw_buffer_index for scaler in obj.daqmx_metadata.scalers)]
+        return min(lengths) if lengths else full_length
 
 
 def get_daqmx_chunk_size(ordered_objects):
